@@ -35,14 +35,17 @@ def gen_case(rng, nsched):
 
 
 SMALL = [
-    ("pool 1 1", [["run 1", "run 2", "stop"]], False, 2),
+    # (object, threads, spurious, preemption bound); the first three are also explored in the quick tier
+    ("pool 1 1", [["run 1", "run 2", "stop"]], True, 2),
     ("pool 1 0", [["run 1", "run 2"], ["stop"]], False, 2),
     ("pool 2 1", [["run 1", "run 2"], ["stop"]], False, 2),
-    ("pool 0 1", [["run 1", "stop", "run 2"]], False, 2),
+    ("pool 0 1", [["run 1", "stop", "run 2"], ["run 3"]], False, 2),
     ("pool 1 1", [["run 1", "run 2"], ["run 3"], ["stop"]], False, 2),
     ("pool 2 2", [["run 1", "run 2", "run 3"], ["stop"]], True, 1),
     ("pool 2 1", [["run 1"], ["run 2", "stop", "run 3"]], False, 2),
     ("pool 3 0", [["run 1", "run 2"], ["run 3", "stop"]], False, 1),
+    ("pool 1 2", [["run 1", "run 2", "run 3", "run 4"], ["stop"]], False, 2),
+    ("pool 2 1", [["run 1", "run 2"], ["run 3", "run 4"], ["stop"]], False, 1),
 ]
 
 
@@ -114,7 +117,7 @@ class Prop:
             heavy = ctx.search_mode or not ctx.quick()
             if fl == "dbg":
                 total, complete = 0, []
-                limit = 6000 if heavy else 600
+                limit = 12000 if heavy else 2500
                 for obj, threads, spur, bound in (SMALL if heavy else SMALL[:3]):
                     c = mc.MCase(obj, threads, [], spur, "systematic")
                     n, done = r.explore(exe, c, bound, limit)
@@ -125,7 +128,7 @@ class Prop:
                         return
                 ctx.extra["systematic"] = complete
                 ctx.count("systematic_runs", total)
-            ncases = (1500 if fl == "dbg" else 300) if heavy else 250
+            ncases = (4000 if fl == "dbg" else 600) if heavy else 600
             batch = []
             for i in range(ncases):
                 batch.append(gen_case(ctx.rng, 6 if heavy else 3))
